@@ -28,6 +28,9 @@ INPUT_ROLES = ("coerce_input_value", "coerce_input_literal")
 def run(check: Check, repo: Repo, tier: str) -> None:
     K.sibling_atoms(check, repo)
     K.sibling_details(check, repo)
+    K.field_requiredness(check, repo)
+    K.variable_arm(check, repo)
+    K.int_atoms(check, repo)
     K.domain_guards(check, repo, INPUT_ROLES)
     check.floor("DOMAIN-GUARDS", 6, "input coercers and helpers")
     sc = K.scalar_coercers(repo)
